@@ -142,6 +142,10 @@ func TestVerifC10Engine(t *testing.T) {
 			x.Settle()
 			time.Sleep(ret + 120*time.Millisecond)
 			phase(r.Range(4, 10))
+			x.Settle()
+			if msg := x.BindGraph(); msg != "" {
+				cs.Fail("before windowed vacuum: %s", msg)
+			}
 			before := len(x.M.Stamps())
 			if !x.GraphVacuumWindow() {
 				ctx.Count("retention.ambiguous_cutoff", 1)
